@@ -807,6 +807,16 @@ func (f *Frame) execRange(cur *blockCur, x *ssa.Range) {
 		f.c.iters = map[ssa.Value]rangeIter{}
 	}
 	f.c.iters[x] = rangeIter{x: x.X, str: isString(x.X.Type())}
+	if mt, ok := x.X.Type().Underlying().(*types.Map); ok {
+		// ghost set of the keys already yielded by this iteration (`visited(k)` in loop invariants)
+		k := f.visitedKey(x, mt)
+		cur.st = cur.st.set(k, fmt.Sprintf("((as const %s) false)", k.Sort))
+		f.c.lastMapRange = x
+	}
+}
+
+func (f *Frame) visitedKey(x *ssa.Range, mt *types.Map) HeapKey {
+	return HeapKey{Name: "G_visited_" + quoteSymInner(f.prefixSym()+x.Name()), Sort: fmt.Sprintf("(Array %s Bool)", f.c.so.sortOf(mt.Key()))}
 }
 
 func (f *Frame) execNext(cur *blockCur, x *ssa.Next) {
@@ -824,7 +834,15 @@ func (f *Frame) execNext(cur *blockCur, x *ssa.Next) {
 	kv := f.freshVal(mt.Key(), f.prefixSym()+x.Name()+"_k")
 	kd, kvv, _ := f.mapKeys(mt)
 	present := fmt.Sprintf("(and (not (= %s 0)) (select (select %s %s) %s))", m.S, cur.st.get(kd), m.S, c.termOf(kv))
-	cur.assume(fmt.Sprintf("(=> %s %s)", ok, present))
+	// Go visits every key that stays in the map exactly once: the key yielded is present and not yet visited;
+	// the iteration ends only when every present key has been visited
+	vk := f.visitedKey(rng, mt)
+	vis := cur.st.get(vk)
+	cur.assume(fmt.Sprintf("(=> %s (and %s (not (select %s %s))))", ok, present, vis, c.termOf(kv)))
+	ks := c.so.sortOf(mt.Key())
+	cur.assume(fmt.Sprintf("(=> (not %s) (forall ((k!v %s)) (! (=> (and (not (= %s 0)) (select (select %s %s) k!v)) (select %s k!v)) :pattern ((select %s k!v)))))",
+		ok, ks, m.S, cur.st.get(kd), m.S, vis, vis))
+	cur.st = cur.st.set(vk, fmt.Sprintf("(ite %s (store %s %s true) %s)", ok, vis, c.termOf(kv), vis))
 	cur.assume(f.typeInv(kv))
 	vterm := c.define(f.prefixSym()+x.Name()+"_v", c.so.sortOf(mt.Elem()), fmt.Sprintf("(select (select %s %s) %s)", cur.st.get(kvv), m.S, c.termOf(kv)))
 	vv := Val{T: mt.Elem(), S: vterm}
